@@ -22,7 +22,8 @@ META = {
     "level_text": "c28_chain, c28_each_stage_once_in_order, c28_lossless, c28_exit_is_composition, c28_fields, c28_clear "
     "(spec automaton, every shape, every schedule incl. clears) and c28_live (liveness pass) are proved; the "
     "implementation is tied to the automaton by trace inclusion on generated pipeline shapes (external / called-method / "
-    "function stages, pipes, FIFOs of several depths, no_dependency nodes incl. the coupled-transaction use, "
+    "function stages, pipes, FIFOs of several depths, no_dependency nodes incl. the coupled-transaction use, stages whose "
+    "method validates its arguments (validate_arguments; the automaton's guard), "
     "allow_unused/allow_empty) with cycle-exact comparison of which combiners ran, the fields they returned/received and "
     "decoupling-pipe entries, and comparison of get_live_signals with the modelled liveness pass",
     "level_note": "PARTIAL by design (DESIGN.md C28): proof of the specification automaton + trace validation of the "
@@ -37,7 +38,10 @@ META = {
 # shapes
 #   shape = {"w": [width of field k], "allow_unused": bool, "allow_empty": bool, "nodes": [node]}
 #   node  = {"kind": "ext"|"call"|"func", "nodep": bool, "fifo": 0 (Pipe) | depth, "req": [field],
-#            "gen": [[field, const, [coef per required field]]], "pair": bool}
+#            "gen": [[field, const, [coef per required field]]], "pair": bool, "vpred": None | [field, mask]}
+#   "vpred": the method the node's required fields are passed to validates its arguments (`validate_arguments`):
+#            `(field & mask) != 0`.  On a "call" node it is the called method; on the external node in front of a
+#            "pair" node it is a method called by the coupling transaction with the fields the node returned.
 #   "pair": this external no_dependency node is called, together with the external node just before it, from
 #           one transaction inside the DUT (the documented use of no_dependency); its arguments are then
 #           (returned fields of the previous node + const) instead of caller-supplied data.
@@ -84,6 +88,12 @@ def make_dut(shape: dict):
 
         return body
 
+    def mk_pred(vp):
+        def pred(arg):
+            return (arg[fname(vp[0])] & vp[1]) != 0
+
+        return pred
+
     class PipeDut(Elaboratable):
         def __init__(self):
             self.clear = Method()
@@ -117,7 +127,10 @@ def make_dut(shape: dict):
                     callee = Method(name=f"callee{i}", i=lay(nd["req"]), o=lay(gen_fields))
                     self._int.callees[i] = callee
 
-                    def_method(m, callee, ready=self._int.crdy[i])(mk_body(nd))
+                    kw = {}
+                    if nd.get("vpred"):
+                        kw["validate_arguments"] = mk_pred(nd["vpred"])
+                    def_method(m, callee, ready=self._int.crdy[i], **kw)(mk_body(nd))
                     p.call_method(callee, ready=rdy, no_dependency=nd["nodep"])
                 else:
                     p.stage(m, o=lay(gen_fields), i=lay(nd["req"]), name=f"fn{i}", ready=rdy, no_dependency=nd["nodep"])(mk_body(nd))
@@ -125,8 +138,14 @@ def make_dut(shape: dict):
                 if nd.get("pair"):
                     a, b = self._int.callees[i - 1], self._int.callees[i]
                     prev = nodes[i - 1]
+                    chk = None
+                    if prev.get("vpred"):
+                        chk = Method(name=f"chk{i}", i=lay(prev["req"]))
+                        def_method(m, chk, validate_arguments=mk_pred(prev["vpred"]))(lambda arg: None)
                     with Transaction(name=f"pair{i}").body(m, ready=self._int.prdy[i]):
                         got = a(m)
+                        if chk is not None:
+                            chk(m, got)
                         b(m, {fname(f): c + sum(co * got[fname(k)] for co, k in zip(coefs, prev["req"])) for f, c, coefs in nd["gen"]})
             self.clear.provide(p.clear)
             return m
@@ -264,7 +283,8 @@ def cfg_line(shape: dict) -> str:
         gen = ";".join(f"{f}:{c}:{'.'.join(map(str, coefs)) or '-'}" for f, c, coefs in nd["gen"]) or "-"
         if nd["kind"] == "ext":
             gen = ";".join(f"{f}:0:-" for f, _, _ in nd["gen"]) or "-"
-        toks.append(f"n{i}={kind}/{int(nd['nodep'])}/{cap}/{int(not nd['fifo'])}/{req}/{gen}")
+        vp = nd.get("vpred")
+        toks.append(f"n{i}={kind}/{int(nd['nodep'])}/{cap}/{int(not nd['fifo'])}/{req}/{gen}/{f'{vp[0]}:{vp[1]}' if vp else '-'}")
     return " ".join(toks)
 
 
@@ -434,6 +454,30 @@ def monitor(case: Case, out: list[str]):
             return f"cycle {t}: malformed observation"
         pushes = {}
         npushes = {}
+        # progress: in a cycle in which every stage, callee and coupling transaction is ready, every caller of a
+        # non-source external stage attempts its call and clear is not called, the most downstream waiting item must
+        # move on (its stage has its input and nothing in front of it) unless the argument validation of the stage's
+        # method refuses it, its decoupling pipe is empty, or the coupled decoupling pipe behind it is occupied
+        all_ready = (
+            not stim["clear"]
+            and all(stim["rdy"].values())
+            and all(stim["crdy"].values())
+            and all(stim["prdy"].values())
+            and all(a is not None for i, a in stim["args"].items() if i > 0)
+        )
+        if all_ready:
+            waiting = [j for j in range(1, n) if pend[j]]
+            if waiting:
+                j = max(waiting)
+                ndj = nodes[j]
+                vp = ndj.get("vpred")
+                refused = bool(vp) and (pend[j][0].get(vp[0], 0) & vp[1]) == 0
+                legit = refused or (ndj["nodep"] and not npend[j]) or (j + 1 < n and nodes[j + 1].get("pair") and bool(npend[j + 1]))
+                if not legit and len(cyc) == n and not cyc[j]["fired"]:
+                    return (
+                        f"cycle {t}: item {pend[j][0]} waits in front of stage {j} with every stage, callee and caller ready and "
+                        f"nothing in front of it, but stage {j} does not run: the item never leaves the pipeline (stuck)"
+                    )
         for i, (nd, ob) in enumerate(zip(nodes, cyc)):
             genf = [g[0] for g in nd["gen"]]
             if ob["ent"] is not None:
@@ -457,6 +501,8 @@ def monitor(case: Case, out: list[str]):
                     return f"cycle {t}: stage {i} ran although every item produced by stage {i - 1} has already passed it (an item passes a stage twice / out of nothing)"
                 r = pend[i][0]
             want_ret = {k: r.get(k) for k in nd["req"]}
+            if nd.get("vpred") and (r.get(nd["vpred"][0], 0) & nd["vpred"][1]) == 0:
+                return f"cycle {t}: stage {i} ran for the item {r} although its method's argument validation refuses it"
             if ob["ret"] != want_ret:
                 return (
                     f"cycle {t}: stage {i} (run #{seq[i]} since clear) received fields {ob['ret']} but the next item in entry "
@@ -542,6 +588,20 @@ DIRECTED = {
         ],
         "allow_unused": True,
     },
+    "validated_call": {
+        "w": [8],
+        "nodes": [("ext", [], [[0, 0, []]]), ("func", [0], [[0, 1, [1]]]), ("call", [0], [[0, 100, [1]]], {"vpred": [0, 255]}), ("ext", [0], [])],
+    },
+    "validated_pair": {
+        "w": [8, 8],
+        "allow_empty": True,
+        "nodes": [
+            ("ext", [], [[0, 0, []], [1, 0, []]]),
+            ("ext", [0, 1], [], {"vpred": [1, 0x1D], "fifo": 2}),
+            ("ext", [], [[0, 1, [1, 2]]], {"nodep": True, "pair": True}),
+            ("ext", [0], []),
+        ],
+    },
     "fifo1": {"w": [3], "nodes": [("ext", [], [[0, 0, []]]), ("func", [0], [[0, 1, [1]]], {"fifo": 1}), ("ext", [0], [], {"fifo": 1})]},
     "const_source": {"w": [8, 8], "nodes": [("func", [], [[0, 7, []]]), ("ext", [0], [[1, 0, []]]), ("ext", [0, 1], [], {"fifo": 2})]},
 }
@@ -553,7 +613,8 @@ def directed_shape(name: str) -> dict:
     for nd in d["nodes"]:
         extra = nd[3] if len(nd) > 3 else {}
         nodes.append(
-            {"kind": nd[0], "nodep": bool(extra.get("nodep")), "fifo": extra.get("fifo", 0), "req": list(nd[1]), "gen": [list(g) for g in nd[2]], "pair": bool(extra.get("pair"))}
+            {"kind": nd[0], "nodep": bool(extra.get("nodep")), "fifo": extra.get("fifo", 0), "req": list(nd[1]), "gen": [list(g) for g in nd[2]], "pair": bool(extra.get("pair")),
+             "vpred": extra.get("vpred")}
         )
     return {"w": d["w"], "allow_unused": bool(d.get("allow_unused")), "allow_empty": bool(d.get("allow_empty")), "nodes": nodes}
 
@@ -579,7 +640,7 @@ def random_shape(rng, n: int) -> dict:
         else:
             req = [] if nodep or not known else sorted(rng.sample(known, rng.randint(0 if not last else 1, len(known))))
             gf = [] if (last and rng.random() < 0.85) else sorted(rng.sample(fields, rng.randint(0, min(2, nf))))
-        nodes.append({"kind": kind, "nodep": nodep, "fifo": fifo, "req": req, "gen": gens(kind, req, gf), "pair": False})
+        nodes.append({"kind": kind, "nodep": nodep, "fifo": fifo, "req": req, "gen": gens(kind, req, gf), "pair": False, "vpred": None})
         for f in gf:
             if f not in known:
                 known.append(f)
@@ -611,8 +672,19 @@ def random_shape(rng, n: int) -> dict:
         live = live_after(shape)
         if not all(live[:-1]):
             shape["allow_empty"] = True
+    # argument-validated methods: a called method, or the method an external stage's fields are fed to by the coupling transaction
+    for i, nd in enumerate(nodes):
+        cand = [k for k in nd["req"] if W[k] >= 3]
+        target = (nd["kind"] == "call" and not nd["nodep"]) or (nd["kind"] == "ext" and i + 1 < n and nodes[i + 1]["pair"])
+        if target and cand and rng.random() < 0.45:
+            f = rng.choice(cand)
+            full = (1 << W[f]) - 1
+            mask = full if rng.random() < 0.5 else (full & (rng.getrandbits(W[f]) | 0b111))  # most values pass
+            nd["vpred"] = [f, mask]
     return shape
 
+
+DRAIN = 14
 
 PROFILES = {
     "free": dict(src=1.0, snk=1.0, mid=1.0, rdy=1.0, clear=0.0),
@@ -625,7 +697,7 @@ PROFILES = {
 }
 
 
-def random_stims(rng, shape: dict, length: int, prof: dict) -> list[dict]:
+def random_stims(rng, shape: dict, length: int, prof: dict, drain: int = 0) -> list[dict]:
     nodes = shape["nodes"]
     n = len(nodes)
     W = shape["w"]
@@ -650,6 +722,16 @@ def random_stims(rng, shape: dict, length: int, prof: dict) -> list[dict]:
                 "prdy": {i: int(rng.random() < prof["mid"]) for i, nd in enumerate(nodes) if nd.get("pair")},
             }
         )
+    for _ in range(drain):  # drain period: the source stops, everything else is ready, no clear
+        stims.append(
+            {
+                "clear": False,
+                "args": {i: (None if i == 0 else {g[0]: rng.randrange(1 << W[g[0]]) for g in nodes[i]["gen"]}) for i in adapters},
+                "rdy": {i: 1 for i in range(n)},
+                "crdy": {i: 1 for i, nd in enumerate(nodes) if nd["kind"] == "call"},
+                "prdy": {i: 1 for i, nd in enumerate(nodes) if nd.get("pair")},
+            }
+        )
     return stims
 
 
@@ -670,7 +752,7 @@ def _cases_for_shape(args) -> list[tuple]:
     res = []
     for seed, pname in seeds:
         rng = random.Random(seed)
-        c = make_case(shape, random_stims(rng, shape, length, PROFILES[pname]), tag)
+        c = make_case(shape, random_stims(rng, shape, length, PROFILES[pname], drain=DRAIN), tag)
         c.desc["profile"] = pname
         res.append(("case", c.cfg, c.ops, c.desc, c.tag, _results[c.key()]))
     return res
@@ -678,13 +760,13 @@ def _cases_for_shape(args) -> list[tuple]:
 
 def gen_cases(ctx: Check) -> list[Case]:
     rng = ctx.rng("gen")
-    length = ctx.pick(60, 120)
+    length = ctx.pick(48, 110)
     profs = list(PROFILES)
     jobs = []
     for name in DIRECTED:
         shape = directed_shape(name)
         jobs.append((shape, [(rng.getrandbits(32), p) for p in ctx.pick(["free", "stalls", "clears", "slow_sink"], profs)], length, "directed"))
-    n_random = ctx.pick(26, 160)
+    n_random = ctx.pick(24, 150)
     for k in range(n_random):
         shape = random_shape(rng, rng.choice([2, 3, 3, 4, 4, 5, 6, 7]))
         ps = [profs[(k + j) % len(profs)] for j in range(ctx.pick(3, 4))]
@@ -722,7 +804,7 @@ def more_cases(case: Case, rng):
     except Exception:  # noqa: BLE001 - the builder rejects this shape: nothing to run
         return
     for j in range(24):
-        yield make_case(shape, random_stims(rng, shape, 60, PROFILES[profs[j % len(profs)]]), "search")
+        yield make_case(shape, random_stims(rng, shape, 50, PROFILES[profs[j % len(profs)]], drain=DRAIN), "search")
 
 
 def nontrivial(case: Case, out: list[str]) -> bool:
@@ -754,6 +836,8 @@ def run(ctx: Check):
         for nd in c.desc["shape"]["nodes"]:
             key = nd["kind"] + ("_nodep" if nd["nodep"] else "") + ("_pair" if nd.get("pair") else "")
             kinds[key] = kinds.get(key, 0) + 1
+            if nd.get("vpred"):
+                kinds["validated"] = kinds.get("validated", 0) + 1
             if nd["fifo"]:
                 kinds[f"fifo_depth_{nd['fifo']}"] = kinds.get(f"fifo_depth_{nd['fifo']}", 0) + 1
     for k, v in sorted(kinds.items()):
